@@ -420,6 +420,15 @@ Section WithNum.
 
   Definition union_reset (u : vu) : vu := mkvu 0%Z zero O (umaxk u) (reset (ugad u)).
 
+  (* var_opt_union serialize followed by deserialize: an empty union (n_ = 0) is written as max_k only; otherwise
+     n_, outer tau numerator / denominator and the serialized gadget *)
+  Definition union_serde (u : vu) : option vu :=
+    if (un u =? 0)%Z then Some (vu_empty (umaxk u))
+    else match serde_roundtrip (ugad u) with
+         | None => None
+         | Some g => Some (mkvu (un u) (uotn u) (uotd u) (umaxk u) g)
+         end.
+
   (* var_opt_sketch(other, as_sketch, adjusted_n) *)
   Definition copy_as (g : vo) (as_sketch : bool) (n : Z) : vo :=
     mkvo (vk g) n (vH g) (vM g) (vmb g) (vR g) (vtot g) (if as_sketch then false else vgad g) (vmarks g).
@@ -544,6 +553,7 @@ Definition F_uempty := vu_empty Z fl PrimFloat.zero.
 Definition F_uupdate : fvu -> fvo -> chs -> fvu * chs * bool := FA union_update.
 Definition F_uresult : fvu -> chs -> option (fvo * chs) := FA get_result f_eps10.
 Definition F_ureset := union_reset Z fl PrimFloat.zero.
+Definition F_userde := union_serde Z fl PrimFloat.zero PrimFloat.ltb.
 
 (* sorting of the sample list by (item, weight bits) *)
 Definition pair_leb (a b : Z * Z) : bool :=
@@ -680,6 +690,15 @@ Definition step (s : st) (o e : line) : st * outline :=
       match getu s u with
       | None => (s, (refused, []))
       | Some uf => (setu s u (mkufull (F_ureset (u_un uf)) []), (ok, []))
+      end
+  | 15 :: u :: u2 :: _ =>                                 (* union u: serialize, deserialize into union u2 *)
+      match getu s u with
+      | None => (s, (refused, []))
+      | Some uf =>
+          match F_userde (u_un uf) with
+          | None => (s, (refused, []))
+          | Some v => (setu s u2 (mkufull v (if (un v =? 0)%Z then [] else u_log uf)), (ok, []))
+          end
       end
   | 14 :: u :: _ =>                                       (* union dump: n numer denom max_k marks gadget-dump ; S: n total *)
       match getu s u with
